@@ -14,4 +14,5 @@ func checkC18(c *Ctx) {
 	c18Layout(c)
 	c18FullReads(c)
 	c18Consume(c)
+	c18HostPort(c)
 }
